@@ -56,6 +56,15 @@ class Mixin(Node):
         raises:
             SyntaxError
         """
+        if isinstance(args, list):
+            # the blank between an argument and the separator after it is
+            # not part of the argument
+            args = [
+                a[:-1] + [a[-1][:-1]]
+                if (isinstance(a, list) and a
+                    and isinstance(a[-1], (tuple, list)) and len(a[-1]) > 1
+                    and a[-1][-1] == ' ') else a for a in args
+            ]
         arguments = list(zip(args,
                              [' '] * len(args))) if args and args[0] else None
         zl = itertools.zip_longest if sys.version_info[
